@@ -422,54 +422,55 @@ DISC_GAMMAS = ["0", "1/4", "1/2", "9/10", "19/20", "49/50", "99/100", "199/200"]
 
 
 def gen_discount_decides(rng):
-    """the DISCOUNT RATE decides between actions: at a choice state, 'now' pays A and ends, 'later' walks k steps (reward 0)
-    and then collects B: Q(now) = A, Q(later) = gamma^k * B.  A is put a factor m inside / outside gamma^k * B with
-    m = (1+gamma)/2 (resp. its inverse): any change of the effective discount by more than (1-gamma)/2 relative -- in the
-    evaluation OR in the improvement step -- flips the decision.  gamma in {0, 1/4, 1/2, 4/5, 9/10, 19/20}; some random
-    extra states feed into the choice state."""
+    """the DISCOUNT RATE decides between actions.  Two independent gadgets per MDP: at a choice state 'now' pays A and ends,
+    'later' walks k steps (reward 0) and then collects B: Q(now) = A, Q(later) = gamma^k * B.  In one gadget A is a factor
+    m = (1+gamma)/2 INSIDE gamma^k*B (later is optimal; any DECREASE of the effective discount by more than (1-gamma)/2
+    relative -- in the evaluation or in the improvement step -- flips it), in the other a factor 1/m OUTSIDE (now is
+    optimal; an INCREASE flips it).  gamma in {0, 1/4, 1/2, 4/5, 9/10, 19/20}; a random feeder state starts the episode."""
     gam = F(rng.choice(["0", "0", "1/4", "1/2", "1/2", "4/5", "4/5", "9/10", "19/20"]))
-    k = rng.randint(1, 3)
-    B = F(rng.randint(2, 12)) * rng.choice([1, 1, -1])
     m = (1 + gam) / 2 if gam > 0 else F(1, 2)
-    inside = rng.random() < .5
-    target = gam ** k * B
-    if gam == 0:
-        A = F(rng.choice([-2, -1, 1, 2]))            # 'later' is worth exactly 0
-    elif (B > 0) == inside:
-        A = target * m                               # |A| < |gamma^k B|
-    else:
-        A = target / m
-    # states: 0 choice, 1..k chain, k+1 terminal, then extras
-    n_extra = rng.randint(0, 2)
-    term = k + 1
-    n = k + 2 + n_extra
-    now_id, later_id = rng.sample([0, 1], 2)
-    actions = [[] for _ in range(n)]
-    trans, reward = {}, {}
-    actions[0] = [0, 1]
-    trans["0,%d" % now_id] = [[term, "1"]]
-    if A != 0:
-        reward["0,%d,%d" % (now_id, term)] = str(A)
-    trans["0,%d" % later_id] = [[1, "1"]]
-    for i in range(1, k + 1):
-        a = rng.randrange(2)
-        actions[i] = [a]
-        trans["%d,%d" % (i, a)] = [[i + 1, "1"]]
-        if i == k:
-            reward["%d,%d,%d" % (i, a, i + 1)] = str(B)
-    actions[term] = [0]
-    trans["%d,0" % term] = [[term, "1"]]
-    for x in range(term + 1, n):
-        actions[x] = [0]
-        p = F(rng.randint(1, 7), 8)
-        trans["%d,0" % x] = [[0, str(p)], [x, str(1 - p)]]
-        r = F(rng.randint(-3, 3))
-        if r != 0:
-            reward["%d,0,0" % x] = str(r); reward["%d,0,%d" % (x, x)] = str(r)
-    absorbing = [i == term for i in range(n)]
-    starts = [n - 1] if n_extra else [0]
-    return {"n": n, "nA": 2, "actions": actions, "trans": trans, "reward": reward, "absorbing": absorbing,
-            "init": [[starts[0], "1"]], "gamma": str(gam)}
+    actions, trans, reward, absorbing, choice = [], {}, {}, [], []
+    for inside in (True, False):
+        base = len(actions)
+        k = rng.randint(1, 3)
+        B = F(rng.randint(2, 12)) * rng.choice([1, 1, -1])
+        target = gam ** k * B
+        if gam == 0:
+            A = F(rng.choice([-2, -1, 1, 2]))        # 'later' is worth exactly 0
+        elif (B > 0) == inside:
+            A = target * m                           # later optimal for B > 0 (resp. now optimal for B < 0)
+        else:
+            A = target / m
+        term = base + k + 1
+        now_id, later_id = rng.sample([0, 1], 2)
+        actions.append([0, 1])
+        trans["%d,%d" % (base, now_id)] = [[term, "1"]]
+        if A != 0:
+            reward["%d,%d,%d" % (base, now_id, term)] = str(A)
+        trans["%d,%d" % (base, later_id)] = [[base + 1, "1"]]
+        for i in range(base + 1, base + k + 1):
+            a = rng.randrange(2)
+            actions.append([a])
+            trans["%d,%d" % (i, a)] = [[i + 1, "1"]]
+            if i == base + k:
+                reward["%d,%d,%d" % (i, a, i + 1)] = str(B)
+        actions.append([0])
+        trans["%d,0" % term] = [[term, "1"]]
+        absorbing += [False] * (k + 1) + [True]
+        choice.append(base)
+    x = len(actions)                                  # feeder: enters either gadget, sometimes lingers
+    p = F(rng.randint(1, 3), 8)
+    q_ = F(rng.randint(1, 3), 8)
+    actions.append([0])
+    row = [[choice[0], str(p)], [choice[1], str(q_)], [x, str(1 - p - q_)]]
+    trans["%d,0" % x] = row
+    r = F(rng.randint(-3, 3))
+    if r != 0:
+        for ns, _ in row:
+            reward["%d,0,%d" % (x, ns)] = str(r)
+    absorbing.append(False)
+    return {"n": len(actions), "nA": 2, "actions": actions, "trans": trans, "reward": reward, "absorbing": absorbing,
+            "init": [[x, "1"]], "gamma": str(gam)}
 
 
 def gen_near_tie(rng, worse_first=False):
